@@ -141,6 +141,7 @@ func c12Run(kind string, ncommon int, limitSpec string, seq []int, reps int) (st
 	}
 	// probe: learn overhead and the largest single metric, so that "each single metric fits on its own" holds
 	var overhead, maxSingle int32
+	sizesUnknown := false // the accessors could not find the charged sizes in this tree (types reshaped): only absolute limits are run
 	used := map[int]bool{}
 	for _, k := range seq {
 		if k < len(shapes) {
@@ -159,11 +160,17 @@ func c12Run(kind string, ncommon int, limitSpec string, seq []int, reps int) (st
 			if sz > maxSingle {
 				maxSingle = sz
 			}
+			if sz < 0 {
+				sizesUnknown = true
+			}
 		}
 		for k := range used {
 			sz, _ := shapes[k].alloc(probe)
 			if sz > maxSingle {
 				maxSingle = sz
+			}
+			if sz < 0 {
+				sizesUnknown = true
 			}
 		}
 		_ = probe.Close()
@@ -176,12 +183,15 @@ func c12Run(kind string, ncommon int, limitSpec string, seq []int, reps int) (st
 	_ = s.drain(0)
 	var limit int32
 	if strings.HasPrefix(limitSpec, "min+") {
+		if sizesUnknown {
+			return "", "", steps
+		}
 		var k int32
 		fmt.Sscanf(limitSpec, "min+%d", &k)
 		limit = overhead + maxSingle + k
 	} else {
 		fmt.Sscan(limitSpec, &limit)
-		if limit < overhead+maxSingle {
+		if limit < overhead+maxSingle && !sizesUnknown {
 			return "", "", steps // precondition of the property not met
 		}
 	}
@@ -235,6 +245,11 @@ func c12Run(kind string, ncommon int, limitSpec string, seq []int, reps int) (st
 	var got []string
 	for i, dg := range dgs {
 		if int32(len(dg)) > limit {
+			if msg, err := decodeMessage(kind, dg); err == nil && len(msg.Batch.Metrics) <= 1 {
+				// the datagram holds a single metric: the property's precondition ("each single metric fits on
+				// its own") does not hold for this limit, whatever the reporter believed when it accepted it
+				continue
+			}
 			return "datagram-exceeds-max-packet-size", fmt.Sprintf("[%s, %d common tags, MaxPacketSizeBytes=%d (overhead allowance %d, largest single metric %d)] composition %v x%d: datagram %d has %d bytes", kind, ncommon+2, limit, overhead, maxSingle, c12Labels(seq), reps, i, len(dg)), steps
 		}
 		msg, err := decodeMessage(kind, dg)
@@ -409,6 +424,7 @@ func c12LemmaJob(tier string) *SeqJob {
 		for _, k := range ks {
 			var charged, overhead int32
 			var rcl, rdet string
+			skipped := false
 			k := k
 			cl, det := controlledCase(0, func() {
 				r, err := m3.NewReporter(m3.Options{HostPorts: []string{s.addr}, Service: "svc", Env: "test", CommonTags: common, Protocol: m3Proto(proto), MaxQueueSize: 4096, MaxPacketSizeBytes: 65000})
@@ -434,23 +450,29 @@ func c12LemmaJob(tier string) *SeqJob {
 					report = func() { h.ReportTimer(math.MinInt64) }
 				case "vbucket-first":
 					h := r.AllocateHistogram(name, tags, tally.ValueBuckets{1, 2})
-					charged = m3.VerifBucketChargedSizes(h)[0]
+					charged = chargedAt(m3.VerifBucketChargedSizes(h), 0)
 					report = func() { h.ValueBucket(0, 1).ReportSamples(math.MinInt64) }
 				case "vbucket-wide":
 					h := r.AllocateHistogram(name, tags, tally.ValueBuckets{1, 1e15})
-					charged = m3.VerifBucketChargedSizes(h)[1]
+					charged = chargedAt(m3.VerifBucketChargedSizes(h), 1)
 					report = func() { h.ValueBucket(0, 1e15).ReportSamples(math.MinInt64) }
 				case "dbucket-odd":
 					ups := tally.MustMakeExponentialDurationBuckets(time.Millisecond, 1.5, 16)
 					h := r.AllocateHistogram(name, tags, ups)
-					charged = m3.VerifBucketChargedSizes(h)[7]
+					charged = chargedAt(m3.VerifBucketChargedSizes(h), 7)
 					report = func() { h.DurationBucket(0, ups[7]).ReportSamples(math.MinInt64) }
 				case "dbucket":
 					h := r.AllocateHistogram(name, tags, tally.DurationBuckets{time.Millisecond, 1001*time.Hour + time.Millisecond})
-					charged = m3.VerifBucketChargedSizes(h)[1]
+					charged = chargedAt(m3.VerifBucketChargedSizes(h), 1)
 					report = func() { h.DurationBucket(0, 1001*time.Hour+time.Millisecond).ReportSamples(math.MinInt64) }
 				}
 				free, _ := m3.VerifBudget(r)
+				if charged <= 0 {
+					// the charged size could not be read in this tree (handle types reshaped): the lemma cannot be stated
+					_ = r.Close()
+					skipped = true
+					return
+				}
 				if int64(k)*int64(charged) > int64(free) {
 					k = int(free / charged) // as many as the reporter itself puts into one batch
 				}
@@ -467,6 +489,10 @@ func c12LemmaJob(tier string) *SeqJob {
 			}
 			if rcl != "" {
 				return rcl, rdet, steps
+			}
+			if skipped {
+				_ = s.readAvailable(nil)
+				continue
 			}
 			if k == 0 {
 				continue
@@ -549,8 +575,13 @@ func c12Scenarios(tier string) []*Scenario {
 		names := []string{strings.Repeat("a", 40), strings.Repeat("b", 300)}
 		tags := []map[string]string{{"k": "v"}, c12Tags(6)}
 		got := make([]int32, 2)
-		var bsizes []int32
-		t1 := rt.GoNamed("alloc1", func() { got[0] = m3.VerifChargedSize(r.AllocateCounter(names[0], tags[0])) })
+		// two histograms with the SAME tag map (one cached tag slice) and bucket labels of different lengths
+		wide := tally.ValueBuckets{1e15, 1e17}
+		var bsizes, bsizes2 []int32
+		t1 := rt.GoNamed("alloc1", func() {
+			got[0] = m3.VerifChargedSize(r.AllocateCounter(names[0], tags[0]))
+			bsizes2 = m3.VerifBucketChargedSizes(r.AllocateHistogram("hw", tags[0], wide))
+		})
 		t2 := rt.GoNamed("alloc2", func() {
 			got[1] = m3.VerifChargedSize(r.AllocateGauge(names[1], tags[1]))
 			bsizes = m3.VerifBucketChargedSizes(r.AllocateHistogram("h", tags[0], tally.ValueBuckets{1}))
@@ -560,6 +591,7 @@ func c12Scenarios(tier string) []*Scenario {
 		// reference: the same allocations made one after the other
 		want := []int32{m3.VerifChargedSize(r.AllocateCounter(names[0], tags[0])), m3.VerifChargedSize(r.AllocateGauge(names[1], tags[1]))}
 		wb := m3.VerifBucketChargedSizes(r.AllocateHistogram("h", tags[0], tally.ValueBuckets{1}))
+		wb2 := m3.VerifBucketChargedSizes(r.AllocateHistogram("hw", tags[0], wide))
 		for i := range want {
 			if got[i] != want[i] {
 				x.failf("charged-size-depends-on-concurrent-allocation", "metric %d: charged %d bytes when allocated concurrently, %d when allocated alone", i, got[i], want[i])
@@ -567,11 +599,23 @@ func c12Scenarios(tier string) []*Scenario {
 		}
 		for i := range wb {
 			if i < len(bsizes) && bsizes[i] != wb[i] {
-				x.failf("charged-size-depends-on-concurrent-allocation", "histogram bucket %d: charged %d bytes when allocated concurrently, %d when allocated alone", i, bsizes[i], wb[i])
+				x.failf("charged-size-depends-on-concurrent-allocation", "histogram h bucket %d: charged %d bytes when allocated concurrently, %d when allocated alone", i, bsizes[i], wb[i])
+			}
+		}
+		for i := range wb2 {
+			if i < len(bsizes2) && bsizes2[i] != wb2[i] {
+				x.failf("charged-size-depends-on-concurrent-allocation", "histogram hw bucket %d: charged %d bytes when allocated concurrently, %d when allocated alone", i, bsizes2[i], wb2[i])
 			}
 		}
 		_ = r.Close()
 	}
 	sc.Check = func(x *Run, o *rt.Outcome) (string, string, string) { return "", "", "ok" }
 	return []*Scenario{sc}
+}
+
+func chargedAt(sizes []int32, i int) int32 {
+	if i < len(sizes) {
+		return sizes[i]
+	}
+	return -1
 }
